@@ -38,6 +38,7 @@ type BridgeOpts struct {
 	UseLevelDB  bool
 	Voting      time.Duration
 	NoFeeFor    string // validators have no relayer fee on record for this chain after bring-up
+	StartTime   time.Time // genesis time (zero: the harness default 2025-01-01T00:00:00Z)
 }
 
 func ERC20Addr(i int) string { return fmt.Sprintf("0x%040x", 0xE2C0000+i) }
@@ -62,7 +63,7 @@ func NewBridgeWorld(o BridgeOpts) (*BridgeWorld, error) {
 		evms = append(evms, chain.EVMChainSpec{RefID: ch, ChainID: uint64(1000 + i)})
 	}
 	c := chain.New(chain.Config{Validators: vals, Users: users, EVMChains: evms, WithCompass: true, CaptureLog: o.CaptureLog,
-		UseLevelDB: o.UseLevelDB, VotingPeriod: o.Voting})
+		UseLevelDB: o.UseLevelDB, VotingPeriod: o.Voting, StartTime: o.StartTime})
 	w.C = c
 	if br := c.Skip(1); br.Panic != "" || br.Err != nil {
 		return w, fmt.Errorf("first block: %s %v", br.Panic, br.Err)
